@@ -1,5 +1,6 @@
 import Driver.Util
 import Faithful.Lib.CarInfo
+import Faithful.Lib.Bucketteer
 open Drv CI Car IndexAll
 
 namespace DrvC01
@@ -26,6 +27,30 @@ def step (st : St) (l : String) : St × String :=
       | .error e => ({ st with ix := none }, s!"car hdr={hdr} objs={secs.length} blocks={nb} txs={nt} build=err {repr e}")
       | .ok ix => ({ car := bytes.toArray, ix := some ix },
           s!"car hdr={hdr} objs={secs.length} blocks={nb} txs={nt} build=ok" ++ (if locsOk then "" else " SCAN-DISAGREES"))
+  | ["idx", which, h] =>
+    -- the real index file, byte for byte, against the model's file for the same archive
+    -- (the metadata pairs are taken from the real header: they are C10's subject)
+    match st.ix with
+    | none => (st, "noindex")
+    | some ix =>
+      let real := unhex h
+      if which = "sigexists" then
+        match BK.openB .v2 real.toArray with
+        | none => (st, "real-file-does-not-open")
+        | some r =>
+          let mine := BK.encode .v2 r.metaKVs (BK.sealA .v2 (BK.putAll (fun s => (H.xxhash64 s).toNat) ix.sigs))
+          (st, if mine == real then "identical" else s!"differs model-len={mine.length} real-len={real.length}")
+      else
+      let sel : Option IndexA := match which with
+        | "cid" => some ix.cidIx | "slot" => some ix.slotIx | "sig" => some ix.sigIx | _ => none
+      match sel with
+      | none => (st, "bad-op")
+      | some a =>
+        match CI.openB real.toArray with
+        | .ok db =>
+          let mine := CI.encode { a with metaKVs := db.metaKVs }
+          (st, if mine == real then "identical" else s!"differs model-len={mine.length} real-len={real.length}")
+        | _ => (st, "real-file-does-not-open")
   | ["obj", c] =>
     match st.ix with
     | none => (st, "noindex")
